@@ -457,3 +457,9 @@ package document
 //@ props C09
 //@ modifies nothing
 //@ ensures exactMatch ==> (result <==> text == searchText)
+
+// The literal FindCells hands to ForEach: appends to its captured result slice only; never reports an error.
+//@ func (*Table).FindCells$1
+//@ props C09
+//@ modifies cell:[]*CellInfo, []*CellInfo
+//@ ensures result == nil
